@@ -339,3 +339,47 @@ class MasterOnlyMonitor:
                                  'signature': f'C01:non-master-{rec["req"]}', 'idx': rec['src'],
                                  'request': rec['req'], 'args': rec['args'], 'master_seen': master_of(s),
                                  'fsm': s.fsm.state.name})
+
+
+# ---------------------------------------------------------------------------------------------
+# observable snapshot: what a user can read through the XML-RPC status API (clock fields removed)
+# ---------------------------------------------------------------------------------------------
+CLOCK_FIELDS = frozenset({'now_monotonic', 'now', 'local_mtime', 'local_time', 'remote_mtime', 'remote_time',
+                          'last_event_mtime', 'uptime', 'description', 'event_mtime'})
+
+
+def _scrub(o):
+    if isinstance(o, dict):
+        return {k: _scrub(v) for k, v in sorted(o.items()) if k not in CLOCK_FIELDS}
+    if isinstance(o, (list, tuple)):
+        return [_scrub(x) for x in o]
+    if isinstance(o, (set, frozenset)):
+        return sorted(_scrub(x) for x in o)
+    return o
+
+
+def observable(s, inner=True):
+    """Everything the status API of instance s returns (payload builders called directly so that the state
+    gating of the API does not hide anything), as a canonical JSON string."""
+    import json as _json
+    rpc = s.rpc
+    ctx = s.context
+    snap = {
+        'state': rpc.get_supvisors_state(),
+        'master': rpc.get_master_identifier(),
+        'state_modes': rpc.get_all_instances_state_modes(),
+        'instances': rpc.get_all_instances_info(),
+        'processes': sorted((p.serial() for a in ctx.applications.values() for p in a.processes.values()),
+                            key=lambda x: (x['application_name'], x['process_name'])),
+        'applications': sorted((a.serial() for a in ctx.applications.values()), key=lambda x: x['application_name']),
+        'conflicts': [p.serial() for p in ctx.conflicts()],
+        'application_rules': {n: a.rules.serial() for n, a in sorted(ctx.applications.items())},
+        'process_rules': {p.namespec: p.rules.serial() for a in ctx.applications.values() for p in a.processes.values()},
+    }
+    for d in snap['processes']:
+        d['identifiers'] = sorted(d['identifiers'])
+    if inner:
+        snap['inner'] = {ident: sorted((dict(proc.info_map[ident]) for proc in st.processes.values()
+                                        if ident in proc.info_map), key=lambda x: (x['group'], x['name']))
+                         for ident, st in ctx.instances.items()}
+    return _json.dumps(_scrub(snap), sort_keys=True, default=str)
